@@ -73,7 +73,7 @@ Print Assumptions C02_history_full.
 Example C02_history_example :
   let s := mkClp (mkBank [(10, [(0, 9000000000000000000000); (1, 9000000000000000000000)]);
                           (11, [(0, 9000000000000000000000); (1, 9000000000000000000000)])] [])
-        [] [] [] 0 [] [] 5 (mkCP 0 3000000000000000 [] 0 0 [(0, 7); (1, 7)] [10] 0 false) in
+        [] [] [] 0 [] [] 5 (mkCP 0 3000000000000000 [] 0 0 [(0, 7); (1, 7)] [10] 0 false [] 0) in
   let txs := [(1000, MCreatePool 10 1 5000000000000000000000 7000000000000000000000);
               (1000, MAddLiquidity 11 1 3000000000000000000 0); (1000, MSwap 10 0 1 1000000000000000000 0);
               (1000, MRemoveLiquidityUnits 11 1 1000000000000000)] in
